@@ -23,7 +23,7 @@ rng = random.Random(a.seed * 7919 + (17 if a.prop == "C17" else 18))
 
 SIGS = [1, 10, 12, 23]          # SIGHUP SIGUSR1 SIGUSR2 SIGURG  (17 = SIGCHLD only through process watches)
 FDS = list(range(100, 106))
-PIDS = list(range(5000, 5004))
+PIDS = list(range(1000000000, 1000000004))
 T0 = 1000 * 1000000             # the harness's clock starts at 1000 s
 
 stats = collections.Counter()
@@ -35,7 +35,7 @@ class Hist:
 
     def __init__(self, focus):
         self.focus = focus
-        self.ops = ["new"]
+        self.ops = ["new " + a.prop]
         self.next_slot = 0
         self.clock = T0
         self.reg = {}            # slot -> kind, for every slot that may get registered
@@ -307,7 +307,7 @@ def exhaustive(prop):
                 for b0, b1 in itertools.product(BEH, repeat=2):
                     if n == 2 and "Cthird" in (b0, b1):
                         continue
-                    ops = ["new"]
+                    ops = ["new " + prop]
                     a0 = BEH[b0](0, 1, 2)
                     a1 = BEH[b1](1, 0, 2)
                     if a0: ops.append(f"beh 0 0 {a0}")
@@ -324,7 +324,7 @@ def exhaustive(prop):
             if sig == "cbl" and not later: continue
             if err == "t" and not timer: continue
             if err == "l" and not later: continue
-            ops = ["new"]
+            ops = ["new " + prop]
             tacts, lacts = [], []
             if err == "t": tacts.append("E,11")
             if err == "l": lacts.append("E,11")
